@@ -17,7 +17,7 @@ func init() {
 		Technique: "affine transfer-function summaries on SSA (packetmap.Drop / Map / direct / Reverse), must-facts (Drop only on the next in-order packet), CFG path rules and value provenance on rtpDownTrack.Write, who-may-call on the RTP write",
 		Decides: "R1.1: a successful Drop changes the state by exactly delta-1, next=seqno+1, nextPid=pid; a refused Drop stores nothing. " +
 			"R1.2: every store of Drop is dominated by seqno == m.next (an offset never changes retroactively). " +
-			"R1.3: every successful mapping returns seqno + D with coefficient +1 on the source seqno and D one of 0, the current delta or an interval's delta; the in-order branch advances next to seqno+1; Reverse returns seqno - (interval delta) and tests membership against first + delta: it is the affine inverse of direct on one interval. " +
+			"R1.3: every successful return of Map/direct is exactly seqno + (the current delta | the delta of one interval), the identity only while delta == 0 is established or after a reset; what Map returns for an in-order packet is what addMapping records ((seqno, delta), interval ending at seqno) and every such branch advances next to seqno+1; direct and Reverse use one cursor and apply an interval's delta only behind the membership test [F, F+count) with F = first (direct) or first+delta (Reverse, the image); Reverse returns seqno - delta; the interval created by the first Drop is the identity on [seqno-8192, seqno). " +
 			"R1.4: in Write a successful Drop or a failed Map forwards nothing; the seqno handed to the rewriter is the map's result; the un-rewritten fast path is taken only when the mapped seqno equals the source seqno, the picture-id delta is zero and no marker is to be set; only rtpDownTrack.write calls the RTP track's Write, and only Write calls it.",
 		NotDecided: []string{
 			"correctness of addMapping's interval expansion and of the ring search under reordering, duplicates and wrap-around",
